@@ -288,12 +288,9 @@ func c14IterTranscript(w *World, keys []string, rev bool, prefix string, calls [
 				}
 				m.rewond = false
 			case "seek":
-				if !m.seekAllowed(c.T) {
-					pruned = true
-					return nil
-				}
+				// C10 leaves a Seek to a target already passed unspecified; C14 still demands that whatever it does
+				// does not depend on the index implementation or the shard count: not pruned here
 				it.Seek([]byte(c.T))
-				m.seek(c.T)
 			case "write":
 				// an interleaved write while the iterator is open (undone after the sequence): the iterator's snapshot
 				// must not move under ANY index implementation
